@@ -29,8 +29,8 @@ type fakeCloud struct {
 	version map[string]int
 }
 
-func (d *fakeCloud) put(key string, data []byte) { d.objects[key] = data; d.version[key]++ }
-func (d *fakeCloud) tag(key string) string       { return fmt.Sprintf(`"0x%08X"`, d.version[key]) }
+func (d *fakeCloud) put(key string, data []byte)            { d.objects[key] = data; d.version[key]++ }
+func (d *fakeCloud) tag(key string) string                  { return fmt.Sprintf(`"0x%08X"`, d.version[key]) }
 func (d *fakeCloud) ErrorCode(err error) gcerrors.ErrorCode { return gcerrors.Unknown }
 func (d *fakeCloud) ErrorAs(err error, i interface{}) bool  { return false }
 func (d *fakeCloud) Close() error                           { return nil }
